@@ -76,6 +76,23 @@ def rewrite_or_assign(body, log, where):
     return ''.join(out)
 
 
+R4_PATTERNS = [
+    r'let\s+before\s*=\s*Instant::now\(\)\s*;',
+    r'unsafe\s*\{\s*[A-Z_]+\s*\+=\s*before\.elapsed\(\)\s*;\s*\}',
+]
+
+
+def drop_timing_statistics(body, log, where):
+    """R4: `let before = Instant::now();` / `unsafe { STATIC += before.elapsed(); }` write only process-wide timing
+    counters (static mut, never read by any relation); they are outside Verus and are dropped, unverified."""
+    for pat in R4_PATTERNS:
+        def repl(m):
+            log.rw('R4', where, re.sub(r'\s+', ' ', m.group(0)))
+            return ''
+        body = re.sub(pat, repl, body)
+    return body
+
+
 def drop_path_prefixes(text, log, where):
     def repl(m):
         log.rw('R5', where, m.group(0))
@@ -110,6 +127,7 @@ def render_fn(fn_item, contract, log, where, in_trait_decl=False):
     if body is None:
         return out + ';'
     b = strip_attrs_in_body(body, log, where)
+    b = drop_timing_statistics(b, log, where)
     b = rewrite_or_assign(b, log, where)
     b = drop_path_prefixes(b, log, where)
     if pre:
@@ -138,6 +156,7 @@ def insert_loop_invariants(body, loops, where):
             continue
         depth = 0
         pos = None
+        in_pos = None
         for p, c in scan(body, h):
             if c in '([':
                 depth += 1
@@ -146,9 +165,16 @@ def insert_loop_invariants(body, loops, where):
             elif c == '{' and depth == 0:
                 pos = p
                 break
+            elif depth == 0 and in_pos is None and body.startswith('for', h) and re.match(r'\bin\b', body[p:p + 3]) and not (body[p - 1].isalnum() or body[p - 1] == '_'):
+                in_pos = p
         if pos is None:
             raise LostAnchor('%s: loop %d has no body' % (where, n))
         inserts.append((pos, '\n' + loops[n].rstrip() + '\n'))
+        if 'VERUS_it' in loops[n]:
+            # R6: name the ghost iterator of a `for` loop (`for PAT in VERUS_it: EXPR`): ghost-only annotation
+            if in_pos is None:
+                raise LostAnchor('%s: loop %d is not a for loop but its invariant names the ghost iterator' % (where, n))
+            inserts.append((in_pos + 2, ' VERUS_it:'))
     missing = set(loops) - set(range(1, len(heads) + 1))
     if missing:
         raise LostAnchor('%s: loop ordinals %s not present (function has %d loops)' % (where, sorted(missing), len(heads)))
@@ -240,6 +266,18 @@ class Splicer:
                 if ders:
                     out.append('#[derive(%s)]' % ', '.join(ders))
                 out.append(it.text if it.text.rstrip().endswith((';', '}')) else it.text + ';')
+                i += 1
+                continue
+            if kind == 'alias':
+                loc, name = [p.strip() for p in rest.split('|')]
+                crate, mod = loc.split()
+                mod = '' if mod == '-' else mod
+                it = [x for x in self.src(crate).module(mod) if x.kind == 'type' and x.name == name]
+                if len(it) != 1:
+                    raise LostAnchor('type alias %s::%s::%s not found' % (crate, mod, name))
+                txt = re.sub(r'^pub\(crate\)', 'pub', it[0].text.strip())
+                out.append(txt)
+                self.log.types.append('%s::%s::%s (alias)' % (crate, mod, name))
                 i += 1
                 continue
             # block directives: collect until //@end
